@@ -44,7 +44,7 @@ def native(run, cases):
 
 def check(run):
     pending = []
-    for rep in run.verify_many([(T.Transform(), {}), (T.Score(), {}), (T.Mahalanobis(), {})]):
+    for rep in run.verify_many([(T.Transform(), {}), (T.Transform(include_states=True), {}), (T.Score(), {}), (T.Mahalanobis(), {})]):
         for ob, model, definitive in driver.refuted(run, rep):
             pending.append((rep, ob, model, definitive))
     need = run.tier == "thorough" or pending or run.undecided or any(r.status != "ok" for r in run.reports)
@@ -63,6 +63,14 @@ def check(run):
         inp = {"seed": run.seed, "rows": 5, "n_sensors": 2, "controls": 2, "k_edit": None, "integer_data": True, "config_extra": NON_DEFAULT}
         problems.append((p, inp))
         run.findings.append(Finding("C16.py.native_integer_matrix", "int-dtype", f"integer-typed data matrix: {p}", {"language": "python", "inputs": inp, "oracle_verdict": p}, True))
+    # precise sensors and a quiet process (variances 1e-9 .. 4e-9, always run): the values are still the exported filter's NIS
+    run.native_runs += 1
+    pp, info = sklearn_native.transform_problems(run.seed + 1, 5, 2, 1, None, noise_scale=2e-9)
+    run.bounded.append({"what": "native: transform / mahalanobis / score of an estimator whose process and sensor variances are of order 1e-9 vs the exported filter run by hand", "bound": "1 estimator x 5 rows", "failures": len(pp), "counted_as_proved": False})
+    for p in pp[:1]:
+        inp = {"seed": run.seed + 1, "rows": 5, "n_sensors": 2, "controls": 1, "k_edit": None, "noise_scale": 2e-9}
+        problems.append((p, inp))
+        run.findings.append(Finding("C16.py.native_precise_sensors", "tiny-variance", f"variances of order 1e-9: {p}", {"language": "python", "inputs": inp, "oracle_verdict": p}, True))
     # stateful: the same estimator transformed, reconfigured through set_params, transformed again (always run)
     run.native_runs += 1
     seq, info = sklearn_native.transform_sequence_problems(run.seed)
@@ -83,6 +91,6 @@ def replay_file(payload):
         p, info = sklearn_native.transform_sequence_problems(i.get("seed", 0))
         print("replay C16 (stateful sequence):", p[:2] or "every step equals the hand-run of the exported filter")
         return not p
-    p, info = sklearn_native.transform_problems(i["seed"], i["rows"], i["n_sensors"], i["controls"], i.get("k_edit"), integer_data=i.get("integer_data", False), config_extra=i.get("config_extra"))
+    p, info = sklearn_native.transform_problems(i["seed"], i["rows"], i["n_sensors"], i["controls"], i.get("k_edit"), integer_data=i.get("integer_data", False), config_extra=i.get("config_extra"), noise_scale=i.get("noise_scale", 1.0))
     print("replay C16:", p[:3] or "transform / mahalanobis / score equal the hand-run filter's NIS")
     return not p
